@@ -70,10 +70,13 @@ ALL_AUTOMATIONS = tuple(Automation)
 
 _MONITOR: list[Callable[[State, Any], None] | None] = [None]
 _orig_update = State._update
+OPS_EXECUTED = [0]      # logged operations executed by the real code in this process (evidence: transitions)
 
 
 def _monitored_update(self: State, operation: Any = None) -> None:
     _orig_update(self, operation)
+    if operation is not None:
+        OPS_EXECUTED[0] += 1
     cb = _MONITOR[0]
     if cb is not None and operation is not None:
         cb(self, operation)
